@@ -124,6 +124,49 @@ pub fn templates() -> Vec<Tpl> {
     v
 }
 
+
+/// URI shapes a client may send: other schemes with and without authority / absolute path,
+/// file URIs with a host, percent-encoding, non-ASCII, query / fragment, directories.
+fn exotic_uris() -> Vec<(&'static str, String)> {
+    let d = ws_dir();
+    vec![
+        ("untitled-abs", "untitled:/abs/new.gleam".to_string()),
+        ("git-abs", "git:/repo/a.gleam".to_string()),
+        ("scheme-host", "vscode-vfs://github/org/repo/src/a.gleam".to_string()),
+        ("notebook-fragment", "vscode-notebook-cell:/ws/nb.ipynb#cell1".to_string()),
+        ("file-host", "file://otherhost/share/x.gleam".to_string()),
+        ("file-localhost", format!("file://localhost{d}/lh.gleam")),
+        ("file-space", format!("file://{d}/with%20space.gleam")),
+        ("file-nonascii", format!("file://{d}/%C3%A9t%C3%A9.gleam")),
+        ("file-query", format!("file://{d}/q.gleam?rev=1")),
+        ("file-fragment", format!("file://{d}/f.gleam#L1")),
+        ("file-dir", format!("file://{d}/")),
+        ("file-root", "file:///".to_string()),
+        ("file-no-ext", format!("file://{d}/noext")),
+        ("file-deep-missing-dir", format!("file://{d}/no/such/dir/m.gleam")),
+        ("file-dotdot", format!("file://{d}/sub/../dd.gleam")),
+        ("file-toml", format!("file://{d}/gleam.toml")),
+    ]
+}
+
+pub fn uri_templates() -> Vec<(String, Vec<Tpl>)> {
+    let valid = json!({"range": range((0, 0), (0, 0)), "text": "// x\n"});
+    exotic_uris()
+        .into_iter()
+        .map(|(tag, u)| {
+            let v = vec![
+                Tpl::Notif { name: format!("open-{tag}"), method: "textDocument/didOpen", params: json!({"textDocument": {"uri": u, "languageId": "gleam", "version": 1, "text": "pub fn e() { 1 }\n"}}) },
+                Tpl::Notif { name: format!("change-{tag}"), method: "textDocument/didChange", params: json!({"textDocument": {"uri": u, "version": 2}, "contentChanges": [valid.clone()]}) },
+                Tpl::Req { name: format!("hover-{tag}"), method: "textDocument/hover", params: json!({"textDocument": {"uri": u}, "position": pos(0, 8)}) },
+                Tpl::Notif { name: format!("close-{tag}"), method: "textDocument/didClose", params: json!({"textDocument": {"uri": u}}) },
+                Tpl::Notif { name: format!("watch-{tag}"), method: "workspace/didChangeWatchedFiles", params: json!({"changes": [{"uri": u, "type": 2}]}) },
+                Tpl::Req { name: format!("rename-{tag}"), method: "textDocument/rename", params: json!({"textDocument": {"uri": u}, "position": pos(0, 8), "newName": "renamed"}) },
+            ];
+            (tag.to_string(), v)
+        })
+        .collect()
+}
+
 // ------------------------------------------------------------------ reference model
 
 #[derive(Clone, Debug, PartialEq)]
@@ -233,7 +276,14 @@ fn check_docs(docs: &BTreeMap<String, DocState>, observed: &BTreeMap<String, Opt
         let st = docs.get(&u).cloned().unwrap_or_else(|| DocState::Possible([None].into_iter().collect()));
         let DocState::Possible(set) = st else { continue };
         let Some(obs) = observed.get(&u) else { continue };
-        let allowed: BTreeSet<Option<String>> = set.iter().map(|o| o.as_ref().map(|t| RefDoc::new(t.clone()).without_cr())).collect();
+        let mut allowed: BTreeSet<Option<String>> = set.iter().map(|o| o.as_ref().map(|t| RefDoc::new(t.clone()).without_cr())).collect();
+        // a document the server need not know may be known from disk (package loading reads
+        // sibling files): its on-disk text is then the only other legitimate content
+        if allowed.contains(&None) {
+            if let Some(disk) = u.strip_prefix("file://").and_then(|p| std::fs::read_to_string(p).ok()) {
+                allowed.insert(Some(RefDoc::new(disk).without_cr()));
+            }
+        }
         if !allowed.contains(obs) {
             let short = u.rsplit('/').next().unwrap_or(&u).to_string();
             out.push(("third-text".to_string(), format!("document {short}: server has {obs:?}, allowed outcomes {allowed:?}")));
@@ -528,6 +578,51 @@ pub fn run(tier: Tier) -> i32 {
     let m_in = tier.pick(2usize, 3usize);
     let seqs_in = all_seqs(&tpls, m_in);
     do_layer(&mut rep, &format!("inproc-all-sequences-le{m_in}"), &seqs_in, false);
+    // URI shapes: per URI all sequences over its own six messages (followed by the canary checks)
+    let mut uri_classes: BTreeSet<String> = BTreeSet::new();
+    {
+        let groups = uri_templates();
+        let m_uri = tier.pick(2usize, 3usize);
+        for binary in [true, false] {
+            let mut flat: Vec<Tpl> = vec![];
+            let mut seqs: Vec<Vec<usize>> = vec![];
+            for (_, g) in &groups {
+                let base = flat.len();
+                flat.extend(g.iter().cloned());
+                let local: Vec<Tpl> = g.clone();
+                for sq in all_seqs(&local, m_uri) {
+                    if !sq.is_empty() {
+                        seqs.push(sq.into_iter().map(|i| i + base).collect());
+                    }
+                }
+            }
+            let res: Vec<(usize, SeqResult)> = seqs
+                .par_iter()
+                .enumerate()
+                .map(|(i, sq)| {
+                    let ts: Vec<Tpl> = sq.iter().map(|&j| flat[j].clone()).collect();
+                    (i, if binary { run_seq_binary(&ts) } else { run_seq_inproc(&ts) })
+                })
+                .collect();
+            let mut l = Layer { name: format!("uri-shapes-{}", if binary { "binary" } else { "inproc" }), states: seqs.len() as u64, exhaustive: true, ..Default::default() };
+            for (i, r) in res {
+                l.executions += 1;
+                l.transitions += seqs[i].len() as u64 + r.responses as u64;
+                for (class, detail) in r.problems {
+                    if class == "machinery" {
+                        rep.machinery(detail);
+                        continue;
+                    }
+                    uri_classes.insert(class.clone());
+                    let names: Vec<String> = seqs[i].iter().map(|&j| flat[j].name().to_string()).collect();
+                    let tag = names[0].splitn(2, '-').nth(1).unwrap_or("").to_string();
+                    rep.violation(Violation { class: class.clone(), key: format!("uri-shape|{tag}|{}", names.iter().map(|n| n.split('-').next().unwrap_or("")).collect::<Vec<_>>().join(">")), witness: json!({"seam": if binary { "binary" } else { "inproc" }, "sequence": names}), detail: format!("[{}] after the prologue, sequence {names:?}: {detail}", if binary { "real binary" } else { "in-process router" }) });
+                }
+            }
+            l.bound = format!("{} URI shapes (other schemes with/without authority and absolute path, file URIs with host / percent-encoding / query / fragment / directory / missing directory / `..`) x all sequences of 1..={m_uri} of that URI's own messages {{didOpen, didChange, hover, didClose, watched-file event, rename}}", groups.len());
+            rep.layer(l);
+        }
+    }
     if tier == Tier::Thorough {
         // binary, m = 3, sequences that contain a didChange and whose other two messages are notifications
         let notif: Vec<usize> = (0..tpls.len()).filter(|&i| matches!(tpls[i], Tpl::Notif { .. })).collect();
@@ -546,6 +641,7 @@ pub fn run(tier: Tier) -> i32 {
     }
     rep.layer(Layer { name: "templates".into(), states: tpls.len() as u64, transitions: tpls.len() as u64, executions: 0, exhaustive: true, bound: format!("{} message templates: {:?}", tpls.len(), tpls.iter().map(|t| t.name().to_string()).collect::<Vec<_>>()), ..Default::default() });
     rep.distinct_nontrivial = with_change;
+    outcome_classes.extend(uri_classes);
     rep.distinct_outcomes = outcome_classes.len() as u64;
     rep.rule = "all sequences of <= m templates after initialize/initialized/didOpen(d1); non-trivial = sequences containing at least one didChange".into();
     rep.sample(json!({"sequence": ["change-d1-reversed-same-line", "hover-d1-valid"]}));
@@ -555,7 +651,10 @@ pub fn run(tier: Tier) -> i32 {
 }
 
 pub fn replay(w: &Value) -> Vec<String> {
-    let tpls = templates();
+    let mut tpls = templates();
+    for (_, g) in uri_templates() {
+        tpls.extend(g);
+    }
     let mut ts = vec![];
     for n in w["sequence"].as_array().cloned().unwrap_or_default() {
         let Some(t) = tpls.iter().find(|t| Some(t.name()) == n.as_str()) else { return vec![format!("unknown template {n}")] };
